@@ -12,8 +12,9 @@
 (* Observe(st) is a read of every key after a barrier: it must equal the abstract store,  *)
 (* which by construction contains every acknowledged operation (EveryAckedPresent).       *)
 (*                                                                                        *)
-(* Cut(j) is the loss of a suffix of the log when the only replica of a 1-replica group   *)
-(* dies: the confirmed part (see below) must survive, of the rest any prefix may.         *)
+(* Cut(D) is the loss of a suffix of the log when the only replica of a 1-replica group   *)
+(* dies: the confirmed part (see below) must survive, of the rest a set D that is closed  *)
+(* under "later on the same location" and "invoked after its answer" may be lost.          *)
 (* An acknowledged operation A is *confirmed* once an operation that was invoked after    *)
 (* A's answer has been answered too (then A's Ready has been persisted before the later   *)
 (* one was published).  This is the documented "avoid" constraint of known finding        *)
@@ -22,80 +23,109 @@
 EXTENDS ZOps, FiniteSets, TLC
 
 VARIABLES store,    \* the abstract store
-          open,     \* id -> [op, done, res, pos, floor] for invoked, not yet returned operations
+          open,     \* id -> [op, done, res, inv] for invoked, not yet returned operations
           zomb,     \* id -> op: returned without an answer, not (yet) linearized
-          base,     \* store at the confirmed frontier
-          tail,     \* op records linearized after the frontier, in order: store = Fold(base, tail)
-          nlin,     \* number of linearized operations so far (absolute position counter)
-          frontier, \* absolute position of base
-          ackedPos, \* largest absolute position of an answered operation
+          base,     \* store made of the operations that can no longer be lost
+          tail,     \* linearized operations that a dying 1-replica node may still lose, in the order
+                    \* in which they were placed: [id, op, inv, ok]; store = Fold(base, ops of tail)
           weak      \* TRUE: 1-replica group of the unrepaired tree (answers confirmed later)
 
-linVars == <<store, open, zomb, base, tail, nlin, frontier, ackedPos, weak>>
+linVars == <<store, open, zomb, base, tail, weak>>
 
-MaxI(a, b) == IF a > b THEN a ELSE b
-MinI(a, b) == IF a < b THEN a ELSE b
 Without(f, x) == [y \in DOMAIN f \ {x} |-> f[y]]
 With(f, x, v) == [y \in DOMAIN f \cup {x} |-> IF y = x THEN v ELSE f[y]]
-Ops(t) == [i \in 1..Len(t) |-> t[i]]
+Idx(t) == 1..Len(t)
+OpsOf(t) == [i \in Idx(t) |-> t[i].op]
+(* the subsequence of t at the indices in P / not in P, order kept *)
+RECURSIVE Pick(_, _, _)
+Pick(t, P, i) == IF i > Len(t) THEN <<>>
+                 ELSE (IF i \in P THEN <<t[i]>> ELSE <<>>) \o Pick(t, P, i + 1)
 
 LinInit(st, w) ==
-  /\ store = st /\ open = <<>> /\ zomb = <<>> /\ base = st /\ tail = <<>>
-  /\ nlin = 0 /\ frontier = 0 /\ ackedPos = 0 /\ weak = w
+  /\ store = st /\ open = <<>> /\ zomb = <<>> /\ base = st /\ tail = <<>> /\ weak = w
 
-Invoke(id, op) ==
+(* `now` is the position of the event in the history (its line number): real-time order *)
+Invoke(id, op, now) ==
   /\ id \notin DOMAIN open /\ id \notin DOMAIN zomb
-  /\ open' = With(open, id, [op |-> op, done |-> FALSE, res |-> 0, pos |-> 0, floor |-> ackedPos])
-  /\ UNCHANGED <<store, zomb, base, tail, nlin, frontier, ackedPos, weak>>
+  /\ open' = With(open, id, [op |-> op, done |-> FALSE, res |-> 0, inv |-> now])
+  /\ UNCHANGED <<store, zomb, base, tail, weak>>
 
 Linearize(id) ==
   /\ id \in DOMAIN open /\ ~open[id].done
   /\ LET r == Apply(store, open[id].op) IN
        /\ store' = r.st
-       /\ open' = [open EXCEPT ![id] = [@ EXCEPT !.done = TRUE, !.res = r.res, !.pos = nlin + 1]]
-  /\ tail' = Append(tail, open[id].op)
-  /\ nlin' = nlin + 1
-  /\ UNCHANGED <<zomb, base, frontier, ackedPos, weak>>
+       /\ open' = [open EXCEPT ![id] = [@ EXCEPT !.done = TRUE, !.res = r.res]]
+  /\ tail' = Append(tail, [id |-> id, op |-> open[id].op, inv |-> open[id].inv, ok |-> 0])
+  /\ UNCHANGED <<zomb, base, weak>>
 
 LinearizeZ(id) ==
   /\ id \in DOMAIN zomb
+  /\ \A j \in DOMAIN zomb : zomb[j] = zomb[id] => j >= id   \* identical operations are interchangeable
   /\ store' = Apply(store, zomb[id]).st
   /\ zomb' = Without(zomb, id)
-  /\ tail' = Append(tail, zomb[id])
-  /\ nlin' = nlin + 1
-  /\ UNCHANGED <<open, base, frontier, ackedPos, weak>>
+  /\ tail' = Append(tail, [id |-> id, op |-> zomb[id], inv |-> 0, ok |-> 0])
+  /\ UNCHANGED <<open, base, weak>>
 
-(* moving the confirmed frontier to absolute position p folds tail[1 .. p-frontier] into base *)
-Advance(p, ap) ==
-  LET q == MaxI(frontier, MinI(p, nlin)) n == q - frontier IN
-    /\ frontier' = q
-    /\ base' = Fold(base, SubSeq(tail, 1, n))
-    /\ tail' = SubSeq(tail, n + 1, Len(tail))
-    /\ ackedPos' = ap
+(* Operations on different locations commute, so what matters for a later loss is the order *)
+(* per location.  When the operations at the indices S can no longer be lost, neither can    *)
+(* the earlier operations on the same locations (the later ones saw their effect): all of    *)
+(* them move from the tail into base.                                                        *)
+Pinned(t, S) == {j \in Idx(t) : \E i \in S : j <= i /\ t[j].op.k = t[i].op.k}
+Settled(t, S) ==
+  LET P == Pinned(t, S) IN
+    /\ base' = Fold(base, OpsOf(Pick(t, P, 1)))
+    /\ tail' = Pick(t, Idx(t) \ P, 1)
 
-ReturnOk(id, res) ==
+(* An answer that the replica may have given from a look at its local store without going  *)
+(* through the log (SETNX on an existing key answers 0, LPOP / RPOP on an empty list nil)    *)
+(* says nothing about what has been persisted: it confirms no earlier answer.                *)
+Confirms(op, res) == ~(res = 0 /\ op.t \in {"setnx", "lpop", "rpop"})
+
+(* weak: the answer to an operation that went through the log confirms every operation that *)
+(* had been answered before this one was invoked (their Ready was persisted before this one  *)
+(* was published).  Otherwise an answer makes its own operation durable at once.             *)
+ReturnOk(id, res, now) ==
   /\ id \in DOMAIN open /\ open[id].done /\ open[id].res = res
-  /\ LET ap == MaxI(ackedPos, open[id].pos) IN
-       Advance(IF weak THEN open[id].floor ELSE ap, ap)
+  /\ LET t == [i \in Idx(tail) |-> IF tail[i].id = id THEN [tail[i] EXCEPT !.ok = now] ELSE tail[i]]
+         S == IF weak
+              THEN IF Confirms(open[id].op, res)
+                   THEN {i \in Idx(t) : t[i].ok > 0 /\ t[i].ok < open[id].inv}
+                   ELSE {}
+              ELSE {i \in Idx(t) : t[i].ok > 0}
+     IN Settled(t, S)
   /\ open' = Without(open, id)
-  /\ UNCHANGED <<store, zomb, nlin, weak>>
+  /\ UNCHANGED <<store, zomb, weak>>
 
 ReturnFail(id) ==
   /\ id \in DOMAIN open
   /\ open' = Without(open, id)
   /\ zomb' = IF open[id].done THEN zomb ELSE With(zomb, id, open[id].op)
-  /\ UNCHANGED <<store, base, tail, nlin, frontier, ackedPos, weak>>
+  /\ UNCHANGED <<store, base, tail, weak>>
 
-(* the only replica died: a suffix of the unconfirmed tail is lost; nothing that was in   *)
-(* flight can take effect afterwards                                                      *)
-Cut(j) ==
-  /\ j \in 0..Len(tail)
-  /\ store' = Fold(base, SubSeq(tail, 1, j))
-  /\ tail' = SubSeq(tail, 1, j)
-  /\ nlin' = frontier + j
-  /\ ackedPos' = MinI(ackedPos, frontier + j)
-  /\ open' = <<>> /\ zomb' = <<>>
-  /\ UNCHANGED <<base, frontier, weak>>
+(* a refusal that the server gives before it proposes anything ("no leader", "not ready for *)
+(* write", "stopped"): the operation must not take effect, now or later                     *)
+Refuse(id) ==
+  /\ id \in DOMAIN open /\ ~open[id].done
+  /\ open' = Without(open, id)
+  /\ UNCHANGED <<store, zomb, base, tail, weak>>
+
+(* The only replica died: a suffix of its log is lost.  The log order is only known per      *)
+(* location (the values show it) and through real time, so a set D of tail operations may    *)
+(* be lost iff with an operation it contains every later one on the same location, and      *)
+(* every operation that was invoked after an answered member of D had been answered.        *)
+(* Operations that were in flight may be in the surviving part of the WAL and take effect   *)
+(* at the replay: they stay optional until the next Settle (doing less is never rejected).  *)
+Losable(D) ==
+  /\ \A i \in D : \A j \in Idx(tail) : (j > i /\ tail[j].op.k = tail[i].op.k) => j \in D
+  /\ \A i \in D : \A j \in Idx(tail) : (tail[i].ok > 0 /\ tail[j].inv > tail[i].ok) => j \in D
+Cut(D) ==
+  /\ D \subseteq Idx(tail) /\ Losable(D)
+  /\ tail' = Pick(tail, Idx(tail) \ D, 1)
+  /\ store' = Fold(base, OpsOf(Pick(tail, Idx(tail) \ D, 1)))
+  /\ open' = <<>>
+  /\ zomb' = [id \in DOMAIN zomb \cup {x \in DOMAIN open : ~open[x].done} |->
+                     IF id \in DOMAIN zomb THEN zomb[id] ELSE open[id].op]
+  /\ UNCHANGED <<base, weak>>
 
 (* EveryAckedPresent: a read of all keys after a barrier equals the abstract store *)
 Observe(st) ==
@@ -106,6 +136,6 @@ Observe(st) ==
 (* operations that were never answered can no longer take effect                          *)
 Settle ==
   /\ open = <<>>
-  /\ zomb' = <<>> /\ base' = store /\ tail' = <<>> /\ frontier' = nlin /\ ackedPos' = nlin
-  /\ UNCHANGED <<store, open, nlin, weak>>
+  /\ zomb' = <<>> /\ base' = store /\ tail' = <<>>
+  /\ UNCHANGED <<store, open, weak>>
 =============================================================================
